@@ -82,7 +82,30 @@ func (c *VC) ghostBuiltin(st *State, name string, call *ast.CallExpr) []*Term {
 		a := c.evalCond(st, call.Args[0])
 		b := c.evalCond(st, call.Args[1])
 		return []*Term{mkEq(a, b)}
+	case "suffixOf":
+		// a is a suffix of b: same backing array, same end, starts no earlier
+		a := c.eval(st, call.Args[0])
+		b := c.eval(st, call.Args[1])
+		aend := c.binop(token.ADD, mkField(a, "sl_off"), mkField(a, "sl_len"), it)
+		bend := c.binop(token.ADD, mkField(b, "sl_off"), mkField(b, "sl_len"), it)
+		acend := c.binop(token.ADD, mkField(a, "sl_off"), mkField(a, "sl_cap"), it)
+		bcend := c.binop(token.ADD, mkField(b, "sl_off"), mkField(b, "sl_cap"), it)
+		return []*Term{mkAnd(mkEq(mkField(a, "sl_base"), mkField(b, "sl_base")), mkEq(aend, bend), mkEq(acend, bcend),
+			c.cmp(token.LEQ, c.idxLit(0), mkField(a, "sl_len"), it), c.cmp(token.LEQ, mkField(a, "sl_len"), mkField(b, "sl_len"), it))}
 	case "old":
+		if (run == nil || run.old == nil) && c.entry != nil {
+			// inside the function under verification (loop invariants): entry values of parameters, entry heap
+			env := make(map[types.Object]*Term, len(st.env))
+			for k, v := range st.env {
+				env[k] = v
+			}
+			for k, v := range c.entryEnv {
+				env[k] = v
+			}
+			o := &State{env: env, heaps: c.entry.heaps, alloc: c.entry.alloc, pc: st.pc}
+			// boxed parameters are not supported here
+			return []*Term{c.eval(o, call.Args[0])}
+		}
 		if run == nil || run.old == nil {
 			return []*Term{c.eval(st, call.Args[0])}
 		}
@@ -104,6 +127,19 @@ func (c *VC) ghostBuiltin(st *State, name string, call *ast.CallExpr) []*Term {
 		tv, _ := c.cur().view.typeOf(lit)
 		sig := tv.Type.(*types.Signature)
 		p := sig.Params().At(0)
+		if lo.Val != nil && hi.Val != nil && lo.Val.IsInt64() && hi.Val.IsInt64() && hi.Val.Int64()-lo.Val.Int64() <= 16 {
+			// small constant range: expand into a finite conjunction / disjunction (quantifier-free)
+			var parts []*Term
+			for k := lo.Val.Int64(); k < hi.Val.Int64(); k++ {
+				sub := st.clone()
+				sub.env[p] = c.numLit(bigInt(k), p.Type())
+				parts = append(parts, c.evalCond(sub, ret.Results[0]))
+			}
+			if name == "forall" {
+				return []*Term{mkAnd(parts...)}
+			}
+			return []*Term{mkOr(parts...)}
+		}
 		bv := c.boundVar(p.Name(), c.sortOf(p.Type()))
 		if c.mode == ModeInt {
 			if bl, ok1 := c.bounds(lo); ok1 {
@@ -422,9 +458,14 @@ func (c *VC) verify() {
 		c.alloc0 = st.alloc
 	}
 	init := st.clone()
+	c.entry = init
+	c.entryEnv = map[types.Object]*Term{}
 	for i, p := range ps {
 		if p.Name() != "" && p.Name() != "_" {
 			c.bindVar(st, p, entry[i])
+			if !fr.boxed[p] && !fr.arrBoxed[p] {
+				c.entryEnv[p] = entry[i]
+			}
 		}
 	}
 	res := resultObjs(fi)
@@ -564,6 +605,6 @@ func (c *VC) checkCalleeMods(st *State, mods []modSpec, pos token.Pos, text stri
 
 // emitSpecAxioms adds the unfolding axioms of recursive / opaque spec functions that were used.
 func (c *VC) emitSpecAxioms() {
-	// (filled in by specdef.go)
-	c.emitPendingSpecs()
+	// opaque spec functions are unfolded once per syntactic application (calls.go: specUF);
+	// quantified unfolding axioms (specdef.go) are no longer emitted.
 }
